@@ -509,6 +509,40 @@ class C20(Prop):
                 ended = True
         return bad
 
+    def extra(self, tier, rng, stats):
+        """fused owned-record / record-set iteration over a source whose read returns 0 bytes before the data
+        is complete (e.g. a file that is still being written): once the end was reported it must stay reported.
+        Such sources are outside the Coq source model, so these cases are judged by the oracle only."""
+        cases = []
+        for f in ('fa', 'fq'):
+            for _ in range(60 if tier == 'quick' else 600):
+                cap = rng.choice([3, 5, 8, 16, 64])
+                t = gen.fasta_file(rng, cap) if f == 'fa' else gen.fastq_file(rng, cap)
+                k = rng.below(4)
+                rs = ['D%d' % rng.below(3) for _ in range(rng.below(len(t) + 1))] if k else []
+                rs = rs + ['Z']
+                ops = [rng.choice(['N', 'O', 'S0', 'E0.2'])] * rng.range(1, 2) + [rng.choice(['N', 'O', 'S0', 'E1.1', 'N']) for _ in range(6)]
+                cases.append(gen.mkcase(f, cap, t, rs, None, 'std', ops))
+        rs = vlib.run_cases(cases, self.id + '_zero', model=False)
+        F = []
+        for r in rs:
+            stats['evaluations'] += 1
+            ended = False
+            bad = abnormal(r)
+            for i, l in enumerate(r['impl']):
+                pl = parse_line(l)
+                if pl['op'][0] not in 'NOSE':
+                    continue
+                if pl['kind'] == 'none':
+                    ended = True
+                elif ended and pl['kind'] in ('rec', 'own', 'set'):
+                    bad.append('op#%d yields records after the end of input had been reported' % i)
+            if any(l.endswith(':0') or ':0,' in l for l in r['impl']):
+                stats['distinct_nontrivial'] += 1
+            if bad:
+                F.append(({'case': r['case'], 'impl': r['impl'], 'model': None, 'spec': [], 'noshrink': True}, bad))
+        return F, {'zero_read_cases': len(cases)}
+
     def nontrivial(self, res):
         return 'steps' in ''.join(res['impl'])
 
@@ -1415,7 +1449,7 @@ def _par_key(seed, tier):
     for d in (os.path.join(vlib.REPO, 'src'), os.path.join(ROOT, 'harness_par', 'src'), os.path.join(ROOT, 'harness_par')):
         for f in sorted(os.listdir(d)):
             pth = os.path.join(d, f)
-            if os.path.isfile(pth) and f != 'parallel.rs':
+            if os.path.isfile(pth) and not (f == 'parallel.rs' and 'harness_par' in d):   # the generated copy is derived
                 h.update(f.encode())
                 h.update(open(pth, 'rb').read())
     for f in ('tools/parprops.py', 'ocaml/par_check.ml', 'coq/theories/Model/Par.v'):
